@@ -1884,6 +1884,10 @@ def builtin(it, name, args, kw, n):
         return K(object())         # a fresh object with nothing but an identity (sentinels)
     if name == 'len':
         return do_len(it, args[0], n)
+    if '.' in name and name.split('.')[0] in ('int', 'str', 'bytes', 'bytearray', 'list', 'dict', 'set', 'tuple', 'float', 'bool') and name.count('.') == 1 \
+            and name not in ('int.from_bytes', 'bytes.fromhex', 'bytearray.fromhex', 'dict.fromkeys', 'str.maketrans', 'bytes.maketrans', 'float.fromhex') and args:
+        # unbound method of a built-in type: int.bit_length(x), str.upper(s), bytes.hex(b) ...
+        return it.call(it.getattr(args[0], name.split('.')[1], n), list(args[1:]), dict(kw), n)
     if name == 'int.from_bytes' or name == 'int.from_bytes':
         b = dict(zip(['bytes', 'byteorder'], args))
         b.update(kw)
